@@ -129,15 +129,17 @@ fn targeted(rng: &mut Rng, b: &mut Vec<u8>) -> &'static str {
 }
 
 /// one mutating call in the `api` op language, chosen from what the file shows
-fn gen_line(rng: &mut Rng, streams: &[(String, u64)], storages: &[String], open: &mut Vec<(u32, String)>, step: u64) -> String {
-    // a stream that a handle is bound to is not touched through another handle, an overwrite or a
-    // removal (what a handle means after that is C07's subject, not this property's)
+fn gen_line(rng: &mut Rng, streams: &[(String, u64)], storages: &[String], open: &mut Vec<(u32, String)>, step: u64, unrestricted: bool) -> String {
+    // in half of the cases a stream that a handle is bound to is not touched through another handle, an
+    // overwrite or a removal; in the other half (`unrestricted`) it is: what such a handle *means* is not this
+    // property's subject (C07 speaks of a handle while its stream exists, of handles to different streams),
+    // but that no call panics or hangs is
     let keys = |p: &str| -> Vec<crate::api::Key> { p.split('/').filter(|c| !c.is_empty()).map(crate::api::key_of).collect() };
     let held = |p: &str, open: &Vec<(u32, String)>| {
         // names are case-insensitive: compare by CFB key, component-wise; `p` holds a handle's stream
         // if it is that stream or one of the storages above it
         let kp = keys(p);
-        open.iter().any(|(_, hp)| {
+        !unrestricted && open.iter().any(|(_, hp)| {
             let kh = keys(hp);
             kh.len() >= kp.len() && kh[..kp.len()] == kp[..]
         })
@@ -235,7 +237,7 @@ pub fn run_case(image: Vec<u8>, seed: u64, given: Option<Vec<String>>, max_ops: 
                     };
                     let streams: Vec<(String, u64)> = listing.iter().filter(|x| x.1).map(|x| (x.0.clone(), x.2)).collect();
                     let storages: Vec<String> = listing.iter().filter(|x| !x.1 && x.0 != "/").map(|x| x.0.clone()).collect();
-                    gen_line(&mut rng, &streams, &storages, &mut open, step)
+                    gen_line(&mut rng, &streams, &storages, &mut open, step, seed % 2 == 1)
                 }
             };
             p2.lock().unwrap().push(line.clone());
